@@ -586,7 +586,7 @@ pub fn driver_main(check: &dyn Check, tier: Tier, seed: u64, replay_idx: Option<
         }
     }
 
-    // re-run suspects alone, sequentially, with a 10x cap
+    // re-run suspects alone, sequentially, with a 3x cap
     let mut hang_violations: Vec<(u64, String)> = vec![];
     suspects.sort();
     suspects.dedup_by_key(|x| x.0);
